@@ -219,7 +219,7 @@ def main():
         'known_findings_hit': [{'id': k['id'], 'obligation': o.name} for k, o in known],
         'undecided': [o.name for o in undecided][:50],
         'refused': refused,
-        'vacuity': {'canaries_sat': sum(1 for c in canaries if c.verdict == 'sat'), 'canaries': len(canaries), 'errors': vacuity_errors},
+        'vacuity': {'canaries_sat': sum(1 for c in canaries if c.verdict in ('sat', 'sat*')), 'canaries': len(canaries), 'errors': vacuity_errors},
         'not_decided_clauses': P.get('not_decided', []),
         'bounded': P.get('bounded', []),
         'explanation': ('contract-based deductive verification of the real functions: %d of %d contract clauses discharged for all inputs/paths; '
